@@ -50,6 +50,10 @@ class Scheduler:
         self.step_cost = step_cost  # virtual seconds that pass per executed step (so that sleepers wake while others work)
         self.order = list(schedule.get("order", []))
         self.preempt = {int(i): int(j) for i, j in schedule.get("preempt", [])}
+        # freeze: [[from_decision, actor_idx], ...] - from that decision on the actor is STOPPED (a paused process: it does not run
+        # even while everybody else sleeps); it is thawed when nothing else can make progress any more
+        self.freeze = [[int(i), int(j)] for i, j in schedule.get("freeze", [])]
+        self.frozen_steps = 0
         self.actors = []
         self.by_thread = {}
         self.back = threading.Event()
@@ -118,9 +122,14 @@ class Scheduler:
         self._park(a)
 
     # ------------------------------------------------------------ controller
+    def _is_frozen(self, a):
+        return any(a.idx == j and self.decisions + 1 >= i for i, j in self.freeze)
+
     def _enabled(self):
         out = []
         for a in self.actors:
+            if self.freeze and self._is_frozen(a):
+                continue
             if a.state in (NEW, RUNNABLE):
                 out.append(a)
             elif a.state == BLOCKED and a.blocked_on is not None and a.blocked_on.free_for(a):
@@ -160,7 +169,10 @@ class Scheduler:
                     break
                 en = self._enabled()
                 if not en:
-                    sleepers = [a for a in live if a.state == SLEEPING]
+                    sleepers = [a for a in live if a.state == SLEEPING and not (self.freeze and self._is_frozen(a))]
+                    if not sleepers and self.freeze and any(self._is_frozen(a) for a in live):
+                        self.freeze = []  # everybody else is done or stuck: the paused actor continues
+                        continue
                     if sleepers:
                         self.now = max(self.now, min(a.wake_at for a in sleepers))
                         continue
